@@ -269,7 +269,7 @@ pub fn encode_apng_with(rng: &mut Rng, img: &HImg, extra_frames: usize, default_
     out
 }
 
-fn rebuild(chunks: &[([u8; 4], Vec<u8>)]) -> Vec<u8> {
+pub fn rebuild(chunks: &[([u8; 4], Vec<u8>)]) -> Vec<u8> {
     let mut out = SIG.to_vec();
     for (n, d) in chunks {
         write_chunk(&mut out, n, d);
